@@ -21,7 +21,8 @@ pub enum HOp {
         route: u8,
         clean: Option<u8>,
         /// How the project directory is given: 0 absolute; 1 relative to the sandbox root;
-        /// 2 "." from inside the project; 3 relative from a sibling directory.
+        /// 2 "." from inside the project; 3 relative from a sibling directory; 4 absolute through
+        /// `..`; 5 absolute through a symlinked directory.
         #[serde(default)]
         how: u8,
     },
@@ -37,7 +38,7 @@ pub struct C18Case {
 
 pub fn c18_case() -> impl Strategy<Value = C18Case> {
     let op = prop_oneof![
-        5 => (0u8..2, 0u8..11, prop::option::weighted(0.25, 0u8..7), 0u8..4).prop_map(|(entry, route, clean, how)| HOp::Invoke { entry, route, clean, how }),
+        5 => (0u8..2, 0u8..11, prop::option::weighted(0.25, 0u8..7), 0u8..6).prop_map(|(entry, route, clean, how)| HOp::Invoke { entry, route, clean, how }),
         3 => (0u8..6, 0u8..3).prop_map(|(input, kind)| HOp::Edit { input, kind }),
         1 => Just(HOp::ToggleFail),
     ];
@@ -288,10 +289,19 @@ pub fn eval_c18(case: &C18Case) -> CaseResult {
                 // in dependency order (b before c / d): if b is predicted to run and its input
                 // content changed, c's snapshot will differ after b ran. Evaluate lazily below.
                 sb.clear_trace();
-                let (cwd, parg): (Option<PathBuf>, PathBuf) = match how % 4 {
+                let (cwd, parg): (Option<PathBuf>, PathBuf) = match how % 6 {
                     0 => (None, sb.path(&dir)),
                     1 => (Some(sb.root.clone()), PathBuf::from(&dir)),
                     2 => (Some(sb.path(&dir)), PathBuf::from(".")),
+                    // absolute but not canonical: through `..` and through a symlinked directory
+                    4 => (None, sb.path(&dir).join("..").join(std::path::Path::new(&dir).file_name().unwrap())),
+                    5 => {
+                        let link = sb.path("plink");
+                        if std::fs::symlink_metadata(&link).is_err() {
+                            let _ = std::os::unix::fs::symlink(sb.path("proj"), &link);
+                        }
+                        (None, if dir == "proj" { link } else { link.join("sub") })
+                    }
                     _ => (
                         Some(sb.path("proj/asrc")),
                         PathBuf::from(if dir == "proj" { "..".to_string() } else { "../sub".to_string() }),
